@@ -192,9 +192,19 @@ class History:
         if r < 0.92:
             if hasattr(m, "element_finder") and kind in ("line", "tri", "quad", "tet", "hex"):
                 k = rng.randint(1, 3)
-                return {"op": "finder", "mesh": mi, "cells": [rng.randrange(nt) for _ in range(k)],
+                lastf = self.__dict__.setdefault("last_finder", {})
+                if mi in lastf and all(c < nt for c in lastf[mi]) and rng.random() < 0.6:
+                    # points on the facets / at the vertices of the cells the PREVIOUS query of this mesh was
+                    # answered with (all of them lie in those cells, and in their neighbours)
+                    cells = lastf.pop(mi)
+                    return {"op": "finder", "mesh": mi, "cells": cells,
+                            "weights": [[rng.randint(1, 8) for _ in range(8)] for _ in cells],
+                            "ties": True, "ties_only": True}
+                cells = [rng.randrange(nt) for _ in range(k)]
+                lastf[mi] = list(cells)
+                return {"op": "finder", "mesh": mi, "cells": cells,
                         "weights": [[rng.randint(1, 8) for _ in range(8)] for _ in range(k)],
-                        "ties": rng.random() < 0.5}
+                        "ties": False}
             return self.gen_basis_op(bi)
         return self.gen_solve()
 
